@@ -251,6 +251,7 @@ type SimWriter struct {
 	maxCall int
 	raised  []error // error of each fired fault, in order
 	limit   int     // >0: panic when calls exceeds it (unbounded-work guard)
+	nilAns  int     // (0, nil) answers given so far (contract violating; C06 only)
 }
 
 // raisedDuring reports whether err is one of the errors raised since the
@@ -293,6 +294,11 @@ func (w *SimWriter) Write(p []byte) (int, error) {
 	if w.limit > 0 && w.calls > w.limit {
 		w.limit = 0
 		panic(writerCallsExceeded{})
+	}
+	if e, ok := w.plan[idx]; ok && e.Nil && len(p) > 0 {
+		w.nilAns++
+		w.fire("writer_zero_nil")
+		return 0, nil
 	}
 	if e, ok := w.plan[idx]; ok {
 		n := e.Accept
